@@ -104,10 +104,22 @@ func init() {
 		Desc: "handleCheckpointBarrier: db.Checkpoint only with hasAllBarriers() true; OperatorCheckpointComplete only after the checkpoint wait function returned a nil error",
 		Run: func(r *Run) {
 			f := r.P.Func("workers/operator", "(*Operator).handleCheckpointBarrier")
-			has := r.P.FuncObj("workers/operator", "(*checkpoint).hasAllBarriers")
+			// "all barriers received": checkpoint.hasAllBarriers() (whose body C02.c pins to
+			// len(srIDs) == 0) or that test written in place when the predicate was inlined
+			var has *types.Func
+			if hf := r.P.TryFunc("workers/operator", "(*checkpoint).hasAllBarriers"); hf != nil {
+				has = hf.Obj
+			}
+			srIDsF := r.P.Field("workers/operator", "checkpoint", "srIDs")
 			ckpt := r.P.FuncObj("dkv", "(*DB).Checkpoint")
 			ckField := r.P.Field("workers/operator", "Operator", "checkpoint")
-			n := r.guarded(f.Decl, f.Name(), "db.Checkpoint", []guardAtom{callAtom("hasAllBarriers()", has, ckField)}, callTo(ckpt),
+			allAtom := guardAtom{Name: "hasAllBarriers()", Deps: []types.Object{ckField}, Match: func(c *pathsim.Ctx, e ast.Expr) (bool, bool) {
+				if call, ok := ast.Unparen(e).(*ast.CallExpr); ok && has != nil && c.P.CalleeFunc(c.Info, call) == has {
+					return false, true
+				}
+				return lenIsZero(c.Info, e, srIDsF)
+			}}
+			n := r.guarded(f.Decl, f.Name(), "db.Checkpoint", []guardAtom{allAtom}, callTo(ckpt),
 				func(v []pathsim.Tri) bool { return v[0] == pathsim.True }, "hasAllBarriers()")
 			if n == 0 {
 				r.Fail(f.Name()+":no-checkpoint", f.Decl.Pos(), nil, "no call of (*dkv.DB).Checkpoint")
@@ -118,7 +130,7 @@ func init() {
 				r.Fail(f.Name()+":no-completion", f.Decl.Pos(), nil, "no call of Job.OperatorCheckpointComplete")
 			}
 			// and the completion itself needs all barriers
-			r.guarded(f.Decl, f.Name(), "job.OperatorCheckpointComplete", []guardAtom{callAtom("hasAllBarriers()", has, ckField)}, callTo(done),
+			r.guarded(f.Decl, f.Name(), "job.OperatorCheckpointComplete", []guardAtom{allAtom}, callTo(done),
 				func(v []pathsim.Tri) bool { return v[0] == pathsim.True }, "hasAllBarriers()")
 		}})
 
